@@ -142,6 +142,20 @@ def run(eng, ctx):
                         witness = "loop flag set when an attribute probe raises AttributeError (finitely many attributes)"
                     if h.type is not None and norm(h.type) == "AttributeError" and any(isinstance(x, (ast.Break, ast.Return)) for st in h.body for x in ast.walk(st)):
                         witness = "loop left when an attribute probe raises AttributeError (finitely many attributes)"
+            # W4a: the evaluator recognised the loop as a counted loop (counter advanced by one exactly once per iteration, invariant bound)
+            if witness is None and getattr(info.get("node"), "_sa_from_while", None) is n:
+                witness = f"counted loop: `{norm(n.test)}` with the counter advanced by one in every iteration and a loop-invariant bound (a range)"
+            # W4b: m &= m - 1 on a non-negative m: every iteration clears one set bit, finitely many are set
+            if witness is None and info.get("test") is not None and not info.get("body_dead") and not info.get("ends"):
+                tst = info["test"]
+                mv = tst[2] if (tst[0] == "loop" and tst[1] == lid) else (tst[2][2] if (tst[0] == "cmp" and tst[1] in ("!=", ">") and tst[2][0] == "loop" and tst[2][1] == lid and tst[3] == ("const", 0)) else None)
+                if mv is not None:
+                    lm = ("loop", lid, mv)
+                    dec = ("bin", "-", lm, ("const", 1))
+                    endv = (info.get("body_end") or {}).get(mv)
+                    pre = (info.get("pre") or {}).get(mv)
+                    if endv in (("bin", "&", lm, dec), ("bin", "&", dec, lm)) and pre is not None and (SH._nonneg(pre) or (tst[0] == "cmp" and tst[1] == ">")):
+                        witness = f"`{mv} &= {mv} - 1` clears one set bit of a non-negative value per iteration until none is left"
             # W4: counting loop - the test bounds a local that every iteration increases by a positive constant
             if witness is None and info.get("test") is not None and not info.get("body_dead"):
                 conjs = info["test"][1] if info["test"][0] == "and" else (info["test"],)
